@@ -96,8 +96,8 @@ nni_copyin_str(char *s, const void *v, size_t maxsz, nni_type t)
 		return (NNG_EBADTYPE);
 	}
 	z = nni_strnlen(v, maxsz);
-	if (z == maxsz && ((char *) v)[maxsz - 1] != 0) {
-		return (NNG_EINVAL); // too long
+	if (z == maxsz) {
+		return (NNG_EINVAL); // too long (no terminator within maxsz)
 	}
 	memcpy(s, v, z);
 	s[z] = 0;
